@@ -18,7 +18,7 @@ var scanWitnesses = []string{
 	"--", "-- c\nx", "--c\r\nx", "/* c */x", "/* c", "/**/", "/*/", "/ *", "- -", "---", "1--1", "1-1", "-", "/",
 	"=", "==", "<>", "!=", ">=", "<=", "||", ":=", "!!", "=>", "|||", "!", ":", "::", "<", ">", "|",
 	"@a", "@", "@ a", "@@flag", "@@", "@%env", "@%", "@%`a b`", "@%`a", "@#info", "@#", "@1", "@_", "@@@",
-	"$", "$echo 'a;b';x", "$a \"b", "$a ${x;}y};z", "$a ${x\\}y;", "$;",
+	"$", "$echo 'a;b';x", "$a \"b", "$a ${x;}y};z", "$a ${x\\}y;", "$;", "$echo 'abc", "$echo \"abc", "$echo `abc", "$a 'b\\", "$a ${", "$a ${'", "$a ${b\\", "$a 'b\\'c' \"d\\\"e\" `f\\`g` ${h\\}i} j;k", "$a\r\n'b\r\nc';", "x $ y",
 	"?", ":a", ":a :b :a", "? :a ?", ":1", ": a", ":",
 	"a:b", "a::b", "a::b(", "a:: (", "a::  \n (1)", "a::", "a:: b", "http://x.y/z?q=1 w", "https://a|b", "a:b{c", "csv::(", "math::pi", "select:1", "count::x", "sum:1", "true:1", "_a:b", "1a:b", "é:x", "٣:x",
 	"(", ")", ",", ".", ";", "*", "+", "%", "#", "{", "}", "[", "]", "\\", "~", "^", "&", "\x00", "\x7f", "€", " x", "　x y", "\u0085", "́", "Ⅰ", "­",
@@ -123,12 +123,43 @@ func unaryWitnesses(o *hc.Out) {
 	}
 }
 
-func unaryOp(o *hc.Out, g *hc.Gen) {
+func genUnary(g *hc.Gen) *uTree {
 	t := &uTree{op: 'A', atom: g.Pick("1", "0", "42", "a", "col_1", "x")}
 	for d := g.Intn(6); d > 0; d-- {
 		t = &uTree{op: "NNNPBR"[g.Intn(6)], sub: t}
 	}
-	unaryCase(o, t)
+	return t
+}
+
+// ---------- external-command statements ----------
+
+var extPieces = []string{"echo", "ls", "-l", "arg", "a b", " ", " ", "  ", "\t", "\n", "|", ">", "&&", "é", "\\", "\\\\", "\\'", "\\\"", "\\`", "\\}", "\\{",
+	"'x'", "'it\\'s'", "'a;b'", "\"y\"", "\"a\\\"b\"", "\"c;d\"", "`z`", "`a\\`b`", "`e;f`", "'", "\"", "`", "'unterminated", "\"unterminated", "`unterminated", "'esc\\", "\"x\\",
+	"${@v}", "${@%HOME}", "${1 + 2}", "${'}'}", "${ \\} }", "${ \\{ }", "${;}", "${", "${@v", "${'", "${\\", "$", "$$", "}", "{", "@v", "--", "/*", "*/"}
+
+// genExternal: `$cmd args…` with quotes of all three kinds, ${…} expressions, escapes, terminated by `;` or by the end
+// of the input (where quotes and expressions may be left open).
+func genExternal(g *hc.Gen) string {
+	var b strings.Builder
+	if g.Intn(3) == 0 {
+		b.WriteString(g.Pick("select 1; ", "print 'a';\n", " ", "\n"))
+	}
+	b.WriteString("$")
+	for n := g.Intn(8); n > 0; n-- {
+		b.WriteString(extPieces[g.Intn(len(extPieces))])
+		if g.Intn(2) == 0 {
+			b.WriteByte(' ')
+		}
+	}
+	switch g.Intn(4) {
+	case 0:
+		b.WriteString(";")
+	case 1:
+		b.WriteString("; select 2")
+	case 2:
+		b.WriteString(g.Pick("'", "\"", "`", "${", "\\", "'abc", "\"abc", "`abc", "${@a", "'a\\"))
+	}
+	return b.String()
 }
 
 // ---------- generator of (mostly valid) queries ----------
